@@ -19,6 +19,9 @@ class VFS:
     asked = []       # paths the matcher was asked about, as given
     docs = []        # Documenter constructions: (file, title, module_name)
     fail_on = None   # file whose Documenter.process raises (C06.d)
+    rel_verdict2 = False
+    rel_verdict = False   # verdict of the matcher for any path that is NOT absolute (CMinx's contract is to ask with absolute paths;
+                          # what a pattern makes of a cwd-relative spelling is arbitrary)
 
     @classmethod
     def reset(cls, dirs, excluded, cwd="/w/cwd"):
@@ -84,6 +87,9 @@ def v_makedirs(p, exist_ok=False):
 class Spec:
     def match_file(self, path):
         VFS.asked.append(path)
+        if not path.startswith("/"):
+            # two independent verdicts by the shape of the spelling: it depends on the working directory which one a path gets
+            return VFS.rel_verdict if path.startswith("..") else VFS.rel_verdict2
         return VFS.excluded.get(_abs(path), False)
 
 
